@@ -115,7 +115,7 @@ CORK = [("R8", re.compile(r"matches!\(\s*self\.config\.socket_type_name\.as_str\
 # what every phase handler guarantees about the output it appends to and the state it leaves
 def handler_post(extra=(), hs_frame=True):
   return ([HS_FRAME] if hs_frame else []) + [
-    ("C06+C04+C02:inv_preserved", "final(self).inv()"),
+    ("C02+C04+C05+C06:inv_preserved", "final(self).inv()"),
     ("C06:config_frame", "final(self).config == old(self).config"),
     # no HandshakeComplete and no DeliverMessage is ever emitted unless the peer completed the configured mechanism
     ("C06:handshake_complete_and_deliveries_only_when_authenticated", "n_gated(final(out).app_actions@) > 0 ==> final(self).auth_ok()"),
@@ -313,6 +313,10 @@ parts = [
        ("C05:revision_follows_peer_signature",
         "old(self).network_read_accumulator@.len() >= 10 && old(self).network_read_accumulator@[0] == 0xFF && old(self).network_read_accumulator@[9] == 0x7F ==> final(self).revision_sent"),
        ("C05:revision_sent_at_most_once", "old(self).revision_sent ==> final(self).revision_sent"),
+       # a complete, acceptable ZMTP/2.0 greeting header is answered in the same call: the engine leaves the Greeting phase
+       ("C05:v2_greeting_answered_when_complete",
+        "old(self).network_read_accumulator@.len() >= 12 && old(self).network_read_accumulator@[0] == 0xFF && old(self).network_read_accumulator@[9] == 0x7F "
+        "&& old(self).network_read_accumulator@[10] == 1 && old(self).version is None ==> final(self).phase != ZmtpPhase::Greeting"),
        ("C05:v3_committed_on_peer_revision",
         "old(self).network_read_accumulator@.len() >= 11 && old(self).network_read_accumulator@[0] == 0xFF && old(self).network_read_accumulator@[9] == 0x7F "
         "&& old(self).network_read_accumulator@[10] >= 3 && old(self).version is None ==> final(self).version == Some(ZmtpVersion::V3)"),
@@ -336,7 +340,7 @@ parts = [
   Fn(EN, "on_network_bytes", impl=IMPL, emit_impl="impl ZmtpEngine", safety_props=["C02", "C04", "C06", "C07"],
      requires=["old(self).inv()"],
      ensures=[
-       ("C06+C04+C02:inv_preserved", "final(self).inv()"),
+       ("C02+C04+C05+C06:inv_preserved", "final(self).inv()"),
        ("C06:config_frame", "final(self).config == old(self).config"),
        # the public entry point: whatever bytes the peer sends, in any phase and however they are cut
        ("C06:handshake_complete_and_deliveries_only_when_authenticated", "n_gated(r.app_actions@) > 0 ==> final(self).auth_ok()"),
